@@ -264,7 +264,7 @@ class QueryMachine(Machine):
                     res.discard = "not-a-well-posed-fit"
                     return
                 try:
-                    fit.do_fit()
+                    fit_result = fit.do_fit()
                 except Exception as e:
                     res.discard = "do_fit_raised_" + type(e).__name__
                     return
@@ -310,6 +310,14 @@ class QueryMachine(Machine):
                     if ps.shape != ps2.shape or np.any(np.abs(ps2 - ps)[free_idx] > 0.02 * err[free_idx]):
                         res.discard = "fit-result-not-a-fixed-point-of-the-minimizer"
                         return
+                # the first "same question twice": the cost do_fit reports and the cost the fit reports right afterwards
+                try:
+                    c0 = float(fit_result["cost"])
+                except Exception:
+                    c0 = None
+                if c0 is not None and np.isfinite(c0) and not abs(c0 - cost) <= 1e-9 * (abs(cost) + 1.0):
+                    raise Violation(PROP, "same-answer", "cost", "do_fit reported cost %.12g, cost_function_value read right afterwards is %.12g" % (c0, cost), step=step,
+                                    expected=c0, actual=cost)
                 base = {"p": p, "err": err, "cost": cost, "fixed": {nm: p[sim.ref.par_names.index(nm)] for nm in sim.ref.fixed}}
                 fitted = True
                 res.bump("fit_" + sim.spec["type"] + "_" + sim.spec["minimizer"])
